@@ -299,6 +299,7 @@ func rulesC09(c *Ctx) {
 	ruleC09Dangling(c)
 	// "no reference" is decided by the value, as the index maintenance does
 	ruleEmptyRef(c, "C09.EMPTYREF")
+	ruleRefStore(c, "C09.REFSTORE")
 	// every entity scan of the checks iterates the VALID ids of the store (for an extended child store:
 	// only entities that have child data), otherwise parent-only entities are reported as broken
 	ruleValidIds(c, "C09.VALIDIDS")
